@@ -113,8 +113,12 @@ def py_issue(w, cfg, op, call):
     if op.get("raw"):
         # deliberately malformed index arguments are passed exactly as generated (lists may differ in length)
         try:
+            g_, d_ = op["g"], op["d"]
+            rt = op.get("rawtype", "list")
+            if rt != "list" and all(isinstance(x, int) and abs(x) < (1 << (31 if rt == "i32" else 63)) for x in list(g_) + list(d_)):
+                g_, d_ = np.array(g_, dtype="int64" if rt == "i64" else "int32"), np.array(d_, dtype="int64" if rt == "i64" else "int32")
             with quiet_fds():
-                ret = w.rf_write_blocks(arr, op["g"], op["d"])
+                ret = w.rf_write_blocks(arr, g_, d_)
             return ("ok", int(ret))
         except Exception as e:
             return ("err", "%s: %s" % (type(e).__name__, str(e)[:200]))
